@@ -69,18 +69,21 @@ def _parse_repetition(tree: Tree[Token]) -> "MatchConverter.Repetition":
     qualifier = repetition_type.children[0]
     if isinstance(qualifier, Tree):
         if qualifier.data == 'range':
-            assert len(qualifier.children) in [1, 2]
+            assert len(qualifier.children) in [1, 2, 3]
             first = qualifier.children[0]
             assert isinstance(first, Token)
             first_value = int(first.value)
 
-            if len(qualifier.children) == 2:
-                second = qualifier.children[1]
+            if len(qualifier.children) == 3:
+                second = qualifier.children[2]
                 assert isinstance(second, Token)
                 second_value = int(second.value)
+            elif len(qualifier.children) == 2:
+                # {n,}: open range
+                second_value = None
             else:
                 second_value = first_value
-            if first_value > second_value:
+            if second_value is not None and first_value > second_value:
                 raise RegexException(
                     f"Invalid range: {first_value} > {second_value}")
             return Repetition(first_value, second_value)
